@@ -314,6 +314,26 @@ pub fn gen_wrap_family(ch: &mut Chunker, r: &mut Rng, prop: &str, _thorough: boo
             rec_wrap(ch, &text, &o, prop);
         }
     }
+    // (c) zero-width characters inside otherwise plain words, at every width between the display width and the
+    //     char / byte count (where a cached or shortcut width that counts bytes or chars goes wrong)
+    for i in 0..40 * scale {
+        let n = r.range(1, 3);
+        let words: Vec<&str> = (0..n).map(|k| if (i + k) % 3 == 2 { *r.pick(ASCII_WORDS) } else { *r.pick(ZW_WORDS) }).collect();
+        let text = words.join(" ");
+        let dw = display_width_oracle(&text);
+        for w in dw.saturating_sub(1)..=text.len() + 1 {
+            let mut o = gen_opts(r, &ocfg, w);
+            o.crlf = false;
+            if matches!(o.splitter, Splitter::Every2 | Splitter::Every3) || i % 2 == 0 {
+                o.splitter = Splitter::None;
+            }
+            if i % 3 != 0 {
+                o.ii.clear();
+                o.si.clear();
+            }
+            rec_wrap(ch, &text, &o, prop);
+        }
+    }
     for i in 0..n_texts {
         let crlf = i % 5 == 0;
         let tc = TextCfg { max_words: 6, max_paras: 4, ansi: if i % 3 == 0 { Ansi::None } else { ansi }, unicode: true, ctrl: ansi == Ansi::Any, crlf };
